@@ -637,9 +637,29 @@ pub fn decode(b: &Bits, pos: usize, code: Code, e: End, zx: bool) -> Dec<u64> {
                 if byte & 0x80 == 0 {
                     break;
                 }
-                // ten continuation bytes cannot be the prefix of the codeword of a 64-bit value (at most
-                // ten bytes in all), whatever follows or fails to follow
-                if groups.len() >= 10 {
+                // a run of continuation bytes whose SMALLEST completion (one more byte, terminal, group 0)
+                // already exceeds 64 bits is not the prefix of any codeword of the domain, whatever
+                // follows or fails to follow (ten continuation bytes always are such a run)
+                let j = groups.len() as u32;
+                if j >= 10 {
+                    return Dec::Invalid;
+                }
+                let mut m: u128 = 0;
+                if big {
+                    for g in &groups {
+                        m = (m << 7) | *g as u128;
+                    }
+                    m <<= 7;
+                } else {
+                    for g in groups.iter().rev() {
+                        m = (m << 7) | *g as u128;
+                    }
+                }
+                let mut off: u128 = 0;
+                for i in 1..=j {
+                    off += 1u128 << (7 * i);
+                }
+                if m + off > u64::MAX as u128 {
                     return Dec::Invalid;
                 }
             }
